@@ -84,11 +84,11 @@ def match_known(known, prop, case, msg):
 
 def run_check(prop, cases, tier, seed, level='model_checking', functions=(), bounds=None, assumptions=(),
               trusted=(), explanation='', setup=None, timeout_ms=None, procs=None, extra_cov=None, tags=driver.HARNESS_TAG,
-              pre_results=None, replay_flags='', post_results=None):
+              pre_results=None, replay_flags='', post_results=None, evidence_name=None, ssa_name='ssa', cgo=True):
     """returns exit code. `cases` is a list of Case."""
     t0 = time.time()
     timeout_ms = timeout_ms or (60000 if tier == 'quick' else 600000)
-    ssa = driver.dump_ssa(tags=tags)
+    ssa = driver.dump_ssa(tags=tags, name=ssa_name, cgo=cgo)
     jobs = [(ssa, c, timeout_ms, seed, setup) for c in cases]
     results = driver.run_cases(_run_case, jobs, procs=procs)
     if pre_results:
@@ -133,7 +133,7 @@ def run_check(prop, cases, tier, seed, level='model_checking', functions=(), bou
                 unreplayed += 1
                 continue
             d = driver.write_replay(prop, re.sub(r'[^A-Za-z0-9_.-]', '_', res['case'] + '_' + hashlib.md5(msg.encode()).hexdigest()[:6]),
-                                    res['pkg'], _replay_fn(res), v['tape'], note='%s %s: %s' % (prop, res['case'], msg), go_flags=replay_flags)
+                                    res['pkg'], _replay_fn(res), v['tape'], note='%s %s: %s' % (prop, res['case'], msg), go_flags=replay_flags, tags=tags)
             rep, out = driver.run_replay(d)
             replays += 1
             open(os.path.join(d, 'replay.log'), 'w').write(out if isinstance(out, str) else str(out))
@@ -160,7 +160,7 @@ def run_check(prop, cases, tier, seed, level='model_checking', functions=(), bou
     wit_ok = 0
     for res in wit[:N_WITNESS]:
         d = driver.write_replay(prop, 'witness_' + re.sub(r'[^A-Za-z0-9_.-]', '_', res['case']), res['pkg'], _replay_fn(res), res['witness']['tape'],
-                                note='%s reachability witness of case %s' % (prop, res['case']), go_flags=replay_flags)
+                                note='%s reachability witness of case %s' % (prop, res['case']), go_flags=replay_flags, tags=tags)
         rep, out = driver.run_replay(d)
         replays += 1
         open(os.path.join(d, 'replay.log'), 'w').write(out if isinstance(out, str) else str(out))
@@ -229,7 +229,7 @@ def run_check(prop, cases, tier, seed, level='model_checking', functions=(), bou
     # runs against a scratch worktree (VERIF_REPO set, used for seeded changes) do not touch the evidence of /repo
     evdir = os.path.join(driver.VERIF, 'evidence') if driver.REPO == '/repo' else os.path.join(driver.CACHE, 'evidence_scratch')
     os.makedirs(evdir, exist_ok=True)
-    json.dump(ev, open(os.path.join(evdir, prop + '.json'), 'w'), indent=1, default=str)
+    json.dump(ev, open(os.path.join(evdir, (evidence_name or prop) + '.json'), 'w'), indent=1, default=str)
     print('%s: %d cases, %d paths, %d assertion queries, %d violations, %d known, %d inconclusive, %.1fs' % (
         prop, len(results), paths, q['assert_queries'], n_viol, len(seen_known), len(inconc), time.time() - t0))
     if n_viol or broken:
